@@ -1,7 +1,10 @@
 """C18 - non-mutating calls do not mutate; failed calls leave their operands intact.
 
-Every operand of every call is a VIEW (slice) of a larger array. Before the call every operand, every parent, every unit
-object and the registry rows are snapshotted; after the call - returned or raised - the obligations are term-for-term
+Every operand of every call is a VIEW (a window) of a larger array - a C-contiguous slice or, on the memory-layout axis, every
+second row, rows in reverse order, a transposed (Fortran-ordered) block, every second column. out= is a fresh window, the input
+object itself, or a SECOND view object on memory of an input (the same window carved again, a child view, the memory walked
+backwards, the window shifted by one row, the window under another unit), with or without where=. Before the call every
+operand, every parent, every unit object and the registry rows are snapshotted; after the call - returned or raised - the obligations are term-for-term
 equalities (z3, under the path condition, tol=0) between the snapshot and what the objects hold now.
 
 Histories: the same disciplines are applied to every step of two- and three-call sequences run inside ONE path (refused /
@@ -25,8 +28,13 @@ MANIFEST = dict(
     text=("Bounded symbolic execution of the real unyt code (symx) with a before/after frame check: for every enumerated call "
           "(conversions and their in-place twins, operators and augmented assignments, ufuncs with/without out= incl. out= "
           "aliasing an input, reductions, array functions, item assignment, Unit arithmetic, copies) x every injected fault x "
-          "every operand position, the operands are slices of larger arrays whose elements, unit scales and unit offsets are "
-          "z3 reals; z3 proves per path that every input of a copying call, and the target of an in-place call that raised, "
+          "every operand position, the operands are windows on larger arrays whose elements, unit scales and unit offsets are "
+          "z3 reals; two more discrete axes are enumerated: the MEMORY LAYOUT of operands, in-place targets and out= buffers "
+          "(C-contiguous slice, every second row, reversed rows, transposed/Fortran-ordered block, every second column) and the "
+          "ALIASING RELATION between out= and the inputs (a fresh buffer, the input object itself, a second view object on the "
+          "input's memory: same window, child view, reversed, shifted by one row = partial overlap, relabelled with another unit; "
+          "the statement form parent[window] op= b), plus where= masks on ufuncs with out= (unselected elements keep their exact "
+          "old terms); z3 proves per path that every input of a copying call, and the target of an in-place call that raised, "
           "hold exactly the terms they held before (numbers, unit object fields, dtype, parent array, registry rows), and that "
           "a successful in-place call changed only its target and agrees with the copying twin. Integer-buffer failure points "
           "run on real int8..int64 buffers with symbolic unit scales. Call HISTORIES are part of the enumeration: all two-call and "
@@ -58,7 +66,15 @@ EXPLANATION = (
     "step, so a copying call that writes into its input only after an earlier in-place call was refused (state left behind by the "
     "raising call) is a counter-model of 'step 2 ...: copying call returned: numbers of p unchanged'. What a copying step returned "
     "is tracked as a bystander of the later steps and must share no memory with an operand or an earlier result; the physical "
-    "constants the equivalences read and the registry's unit system object are bystanders too."
+    "constants the equivalences read and the registry's unit system object are bystanders too. "
+    "Memory layout and aliasing: a window's positions in its parent are computed by the harness from an index array carved the "
+    "same way, so 'only the target changed' is stated element by element on the parent for every layout; when out= is a second "
+    "view object on memory of an input, the target's window of the parent must hold the numbers of the copying twin (evaluated "
+    "BEFORE the call on the untouched operands), every other parent element its old term, and the overlaid operand keeps its unit "
+    "object, dtype, shape and class - so an intermediate result parked in out= before the operand underneath was read (a guard by "
+    "object identity instead of memory overlap), or a result written into a contiguous temporary of a strided / transposed out= "
+    "while the caller's buffer is only relabelled, is a counter-model of 'target holds the numbers of the copying twin'. With "
+    "where=[True, False] the selected elements must equal the twin's, the others must be exactly their old terms."
 )
 BOUNDS = {
     "quick": "conversions x 5 entry points x {valid plain/prefixed/affine/compound/table/EM/identity, dimension mismatch, unknown unit, "
@@ -94,18 +110,46 @@ BOUNDS = {
              "dimension mismatch with out / wrong-shape out, np.concatenate out= valid/dimension, item assignment valid/dimension, "
              "sort) x 11 second calls, 6 refused copying letters x 5, 5 returned copying letters x 4, alternating same-array / "
              "other-array; an affine operand set (symbolic offsets) 9 x 5; 64 + 32 three-call words (conversion letters; operator "
-             "letters, words that start with an in-place call). (C) read-only targets: 22 in-place call forms on a read-only view",
+             "letters, words that start with an in-place call). (C) read-only targets: 22 in-place call forms on a read-only view. "
+             "MEMORY LAYOUT (windows that are not C-contiguous: 1-d {every second element, reversed}, 2x2 {transposed = Fortran-ordered, "
+             "every second column, every second row}): out= of the 28 array-function forms and of reduce/accumulate in EVERY such layout; "
+             "reductions with out= {strided, reversed | transposed, colstrided}; 53 ufunc configurations x out= strided (+ operands "
+             "strided / reversed with one rotating out= form); a rotating choice of 1-2 layouts per call site for the target of "
+             "convert_to_units (2), the 6 in-place base conversions, the 2 in-place equivalence entries, every augmented assignment x "
+             "operand variant, ipow / np.power(out=), the 14 in-place array functions (2), item assignment (index kind x value kind), "
+             "copy-then-edit, and for the operands of the copying calls to / to_value / in_base / in_cgs / to_equivalent, every binary "
+             "operator x variant (2x2 windows for + - * / only: comparisons, floor and mod fork per element), the 49 array functions, "
+             "reductions; int32 buffers every second element (convert_to_units/base, np.add(out=int), +=). "
+             "OUT= ALIASING (out= a second view OBJECT on memory of an input): 53 ufunc configurations (8 more than before: point - "
+             "absolute temperatures, which unyt refuses only after rescaling an operand, difference + point, subtract on table units) x "
+             "{same window of operand 0, of operand 1} + 2 rotating of {child view, reversed view, window shifted by one element = "
+             "partial overlap, same window under another commensurable unit} x {operand 0, operand 1}; array functions with out= of the "
+             "operand's shape (clip, dot, matmul, take, around, round, choose, einsum, compress, cumsum): same window + 1 rotating; "
+             "add.accumulate and cumsum {same window, reversed, shifted, relabelled}; the other reductions: out= a row of the input; "
+             "np.power(out=view of a); modf/divmod/frexp/copysign/isfinite on doubles {same window, shifted}; the statement form "
+             "parent[window] op= b for += -= %= (and *= /= //= by a bare number); history letter np.add(x, y, out=x[...]). "
+             "WHERE=: ufuncs with out= and where=[True, False]: out fresh and out= a second view of operand 0 for every configuration",
     "thorough": "the same catalogue with every op x variant x out= form, array operands and scalar operands (element 1 of a 4-element "
                 "parent), integer buffers int8/uint8/int16/uint16/int32/int64; histories: thermal 20 x 11 x both array patterns, the "
                 "other 9 equivalences 9 x 7 x both patterns, equivalence pairs 3 x 6, three-call words for thermal/sound_speed/spectral "
                 "x two array patterns, scalar operands for 15 thermal pairs; (B) ALL ordered pairs of the 42 letters x both array "
-                "patterns, affine set x both patterns, 4 x 64 three-call words",
+                "patterns, affine set x both patterns, 4 x 64 three-call words; memory layout: every listed call site x ALL its "
+                "non-contiguous layouts (copying conversion entries, binary operators and copies: 2-3 rotating), integer buffers "
+                "int8..int64 x {strided, reversed}; out= aliasing: all 10 second-view forms per ufunc configuration and 5 (+3 on "
+                "operand 1) per array function, operands strided x {none, fresh, the input, second view} and reversed x {none, the "
+                "input, shifted}; where= x {fresh, the input, second view, strided, other unit}; statement form also on strided and "
+                "2x2 every-second-column windows",
 }
 OUTSIDE = ("IEEE rounding/overflow/nan (A1); complex payloads; histories longer than three calls, histories that cross the "
            "equivalence / plain-catalogue operand sets, and state that survives a path only in a worker process (every path starts "
            "from whatever the previous path of that worker left in module-level objects other than the lru_caches: on the unchanged "
-           "tree nothing; a history therefore always contains its own first call); in-place calls whose out= is a second view object over memory of "
-           "an input (only out-is-the-input aliasing is enumerated); dask/astropy/pint/h5py bridges; the integer-buffer and float-only "
+           "tree nothing; a history therefore always contains its own first call); out= windows that lie on memory of an input of ANOTHER shape "
+           "(np.concatenate / np.stack into a buffer covering an input: NumPy itself does not define the result; only 'a row of the "
+           "input' is walked for reductions), partially overlapping out= together with where= (NumPy writes a temporary back over "
+           "the whole window: np.equal(x[1:3], y, out=x[2:4], where=[True, False]) changes x[3] on bare ndarrays), where= masks other "
+           "than [True, False], windows of more than two dimensions, zero-stride (broadcast) and retyped views, the statement form "
+           "parent[window] op= b for operators whose result carries another unit than the array (__setitem__ refuses it after the "
+           "product was formed: Python's statement semantics, not one call); dask/astropy/pint/h5py bridges; the integer-buffer and float-only "
            "routes run on concrete numbers (the buffer content is not symbolic there, the unit scales/offsets are); what a successful "
            "in-place dtype change does to the integer parent under the target (C16) and float16 precision of 2-byte integers (C17); "
            "ndarray.std and the divmod operator on symbolic payloads (NumPy has no object-dtype route for them: std is not run, divmod "
@@ -235,6 +279,49 @@ def _is_ground(t):
     return True
 
 
+LAYOUTS = ("c", "strided", "rev", "T", "colstrided")
+LAY1 = ["strided", "rev"]              # one-dimensional windows that are not C-contiguous
+LAY2 = ["T", "colstrided", "strided"]  # two-dimensional: a Fortran-ordered block, every second column, every second row
+
+
+def _parent_shape(shape, layout):
+    if shape == ():
+        return (4,)
+    n, rest = shape[0], tuple(shape[1:])
+    if layout in ("c", "rev"):
+        return (n + 2,) + rest
+    if layout == "strided" or (layout == "colstrided" and not rest):
+        return (2 * n + 2,) + rest
+    if layout == "T":
+        assert len(shape) == 2
+        return (shape[1] + 2, shape[0])
+    if layout == "colstrided":
+        return (n + 2,) + rest[:-1] + (2 * rest[-1],)
+    raise KeyError(layout)
+
+
+def _window(shape, layout, shift=0):
+    """index expression of the window of that layout on a parent of _parent_shape (shift: moved on by so many window rows);
+    layout 'T': the index of the block that is then transposed"""
+    n, k = shape[0], 1 + shift
+    if layout == "c":
+        return slice(k, k + n)
+    if layout == "strided" or (layout == "colstrided" and len(shape) == 1):
+        return slice(1 + 2 * shift, 1 + 2 * shift + 2 * n, 2)
+    if layout == "rev":
+        return slice(n + shift, shift, -1)
+    if layout == "T":
+        return slice(k, k + shape[1])
+    if layout == "colstrided":
+        return (slice(k, k + n), Ellipsis, slice(None, None, 2))
+    raise KeyError(layout)
+
+
+def _carve(par, shape, layout, shift=0):
+    v = par[_window(shape, layout, shift)]
+    return v.T if layout == "T" else v
+
+
 class Snap:
     def __init__(self, obj):
         self.obj = obj
@@ -267,6 +354,8 @@ class Env:
         self.rows = {}
         self.tracked = {}    # key -> object
         self.parent_of = {}  # key -> (parent key, flat positions)
+        self.carved = {}     # key -> (shape, layout) of an operand that is a window on its parent
+        self.overlap = {}    # key of a second view -> keys of the tracked operands whose memory it lies on
         self.under_check = True
         self.must_return = False  # set for 'valid' variants: the call under test has to return (guards the catalogue itself)
         self.parent_full = False  # integer routes: a retyped view and its integer parent read the same bytes differently
@@ -302,36 +391,71 @@ class Env:
         self.need(ustr)
         return self.unyt.unyt_array(raw, ustr, registry=self.reg)  # a view of raw, not a copy
 
-    def _slice(self, name, par, shape):
+    def _slice(self, name, par, shape, layout="c"):
         if shape == ():
             op = par[1]
             pos = None
         else:
-            op = par[1:1 + shape[0]]
-            row = int(np.prod(shape[1:], dtype=int))
-            pos = list(range(row, (1 + shape[0]) * row))
+            op = _carve(par, shape, layout)
+            pos = [int(i) for i in _carve(np.arange(int(np.prod(par.shape))).reshape(par.shape), shape, layout).ravel()]
+            assert op.shape == tuple(shape), (op.shape, shape, layout)
         self.tracked[name + "^"] = par
         if isinstance(op, np.ndarray):
             self.tracked[name] = op
             if pos is not None:
                 self.parent_of[name] = (name + "^", pos)
+                self.carved[name] = (tuple(shape), layout)
         return op
 
-    def view(self, name, ustr, shape=(2,), **kw):
-        """an operand that is the slice [1:1+n] of a parent with two more rows (shape () -> element 1 of a 4-element parent);
-        ustr None -> bare ndarray / bare number. Payload = fresh symbols name_i"""
-        pshape = (4,) if shape == () else (shape[0] + 2,) + tuple(shape[1:])
-        raw = self.ctx.reals(name, pshape, **kw)
-        return self._slice(name, self._wrap(raw, ustr), shape)
+    def view(self, name, ustr, shape=(2,), layout="c", **kw):
+        """an operand that is a window on a larger parent (layout 'c': the slice [1:1+n] of a parent with two more rows; the other
+        LAYOUTS: every second row, rows in reverse order, a transposed = Fortran-ordered block, every second column; shape () ->
+        element 1 of a 4-element parent); ustr None -> bare ndarray / bare number. Payload = fresh symbols name_i"""
+        raw = self.ctx.reals(name, _parent_shape(shape, layout), **kw)
+        return self._slice(name, self._wrap(raw, ustr), shape, layout)
 
-    def concrete(self, name, values, ustr=None, dtype=float):
-        """operand with concrete numbers (exponents, index-like data, typed integer buffers): slice [1:-1] of a parent"""
+    def concrete(self, name, values, ustr=None, dtype=float, layout="c"):
+        """operand with concrete numbers (exponents, index-like data, typed integer buffers): a window on a larger parent"""
         vals = np.asarray(values)
         if vals.shape == ():
             full = np.array([7, vals[()], 5, 9], dtype=dtype)
             return self._slice(name, self._wrap(full, ustr), ())
-        full = np.concatenate([np.full((1,) + vals.shape[1:], 7), vals, np.full((1,) + vals.shape[1:], 9)]).astype(dtype)
-        return self._slice(name, self._wrap(full, ustr), vals.shape)
+        if layout == "c":
+            full = np.concatenate([np.full((1,) + vals.shape[1:], 7), vals, np.full((1,) + vals.shape[1:], 9)]).astype(dtype)
+        else:
+            pshape = _parent_shape(vals.shape, layout)
+            full = (7 + np.arange(int(np.prod(pshape))) % 3).reshape(pshape).astype(dtype)
+            _carve(full, vals.shape, layout)[...] = vals
+        return self._slice(name, self._wrap(full, ustr), vals.shape, layout)
+
+    def alias(self, name, of, how, ustr=None):
+        """a SECOND view object on memory of the tracked operand `of` (itself a window on its parent), to be handed to out=:
+        'view' the same window carved from the parent once more (x[::2] written twice), 'subview' of[...] (a child view of the
+        operand), 'flip' the operand's memory walked in the opposite direction, 'shift' the window moved on by one row (it lies on
+        one half of the operand and on parent elements the operand does not cover), 'relabel' the same window in the unit ustr"""
+        pkey, _ = self.parent_of[of]
+        par, a = self.tracked[pkey], self.tracked[of]
+        shape, layout = self.carved[of]
+        idx = np.arange(int(np.prod(par.shape))).reshape(par.shape)
+        ia = _carve(idx, shape, layout)
+        if how == "view":
+            v, iv = _carve(par, shape, layout), ia
+        elif how == "subview":
+            v, iv = a[...], ia[...]
+        elif how == "flip":
+            v, iv = a[::-1], ia[::-1]
+        elif how == "shift":
+            v, iv = _carve(par, shape, layout, shift=1), _carve(idx, shape, layout, shift=1)
+        elif how == "relabel":
+            self.need(ustr)
+            v, iv = self.unyt.unyt_array(_carve(par.view(np.ndarray), shape, layout), ustr, registry=self.reg), ia
+        else:
+            raise KeyError(how)
+        assert v is not a and v.shape == a.shape and np.shares_memory(v, a)
+        self.tracked[name] = v
+        self.parent_of[name] = (pkey, [int(i) for i in iv.ravel()])
+        self.overlap[name] = {of}
+        return v
 
     def operand(self, name, spec, shape=(2,), **kw):
         """spec: 'xa' (array view in that unit) | 'q:xa' (scalar quantity) | 'bare' | 'num' | ('const', value[, unit])"""
@@ -422,13 +546,15 @@ class Env:
             raw[i] = v
         return self.unyt.unyt_array(raw.reshape(s.shape), s.uobj)
 
-    def inplace(self, tkeys, fn, twin, expect=None, slack=0, pre="", twin_after=False):
+    def inplace(self, tkeys, fn, twin, expect=None, slack=0, pre="", twin_after=False, where=None):
         """an in-place call on the tracked objects tkeys. twin() is the corresponding copying call (evaluated first; it is
         itself held to the copying discipline). expect(twin_result) -> [(numbers, unit or None)] per target: what the target
         must hold after success; default: the twin's payload and unit.
         pre: label prefix (the step of a history). twin_after (histories): NO call of the library precedes the in-place call;
         only if it returned, twin(*clones) is run afterwards on harness-built clones of what the targets held before, and is
-        itself held to the copying discipline (clones and every tracked object)."""
+        itself held to the copying discipline (clones and every tracked object).
+        where: flat list of booleans, the where= mask of the call: the target holds the twin's numbers where it is set and
+        exactly its old numbers where it is not."""
         ctx = self.ctx
         if isinstance(tkeys, str):
             tkeys = [tkeys]
@@ -479,7 +605,15 @@ class Env:
                 for t, (want_vals, want_unit) in zip(tkeys, wants):
                     tgt = self.tracked[t]
                     now = elements(tgt)
-                    ctx.require(f"{tag}: target {t} holds the numbers of the copying twin", vals_close(now, want_vals, slack), to_solver=True)
+                    if where is None:
+                        ctx.require(f"{tag}: target {t} holds the numbers of the copying twin", vals_close(now, want_vals, slack), to_solver=True)
+                    else:
+                        sel = [i for i, m in enumerate(where) if m]
+                        rest = [i for i, m in enumerate(where) if not m]
+                        ctx.require(f"{tag}: target {t} holds the numbers of the copying twin where the where= mask is set",
+                                    len(now) == len(where) == len(want_vals) and vals_close([now[i] for i in sel], [want_vals[i] for i in sel], slack), to_solver=True)
+                        ctx.require(f"{tag}: target {t} keeps its numbers where the where= mask is not set",
+                                    len(now) == len(where) and vals_same([now[i] for i in rest], [snaps[t].vals[i] for i in rest]), to_solver=True)
                     if self.observe_values:
                         ctx.observe("target", obs(now))
                     if want_unit is not None and hasattr(tgt, "units"):
@@ -500,7 +634,16 @@ class Env:
                     ctx.require(f"{tag}: elements of {pkey}(parent of target) under the target are the target's",
                                 vals_same([pnow[i] for i in pos], elements(self.tracked[t])), to_solver=True)
                 self._intact(tag, pkey + "(parent of target)", ps, what=("unit", "dtype"))
+        # a tracked operand the target lies on (out= is a second view of its memory): when the call returned, its numbers are the
+        # parent's, which are checked element by element above; its unit object, dtype, shape and class stay as they were
+        lap = set().union(*[self.overlap.get(t, ()) for t in tkeys]) if r[0] == "ok" else set()
         for k in others:
+            if k in lap:
+                self._intact(tag, k, snaps[k], what=("unit", "dtype"))
+                pk, pos = self.parent_of[k]
+                ctx.require(f"{tag}: {k} (shares memory with the target) still reads its window of {pk}",
+                            pk in pkeys and vals_same(elements(snaps[k].obj), [elements(snaps[pk].obj)[i] for i in pos]), to_solver=True)
+                continue
             self._intact(tag, k, snaps[k])
         self.registry_intact(tag, lut0)
         return r, tw
@@ -508,6 +651,10 @@ class Env:
 
 def _shape_tag(shape):
     return "x".join(map(str, shape)) or "0"
+
+
+def _lay_tag(layout):
+    return "" if layout == "c" else "@" + layout
 
 
 def _cid(*parts):
@@ -554,11 +701,11 @@ EQUIV = [  # tag, source unit, target unit, equivalence, kwargs, fault, payload 
 ]
 
 
-def conv_case(entry, tag, src, dst, fault, shape):
+def conv_case(entry, tag, src, dst, fault, shape, layout="c"):
     def h(ctx):
         E = Env(ctx)
         E.must_return = fault is None
-        q = E.view("q", src, shape)
+        q = E.view("q", src, shape, layout=layout)
         E.need(dst)
         if shape == ():
             E.track("q", q)
@@ -574,7 +721,7 @@ def conv_case(entry, tag, src, dst, fault, shape):
             E.inplace("q", lambda: q.convert_to_units(dst), lambda: q.in_units(dst))
         else:
             raise KeyError(entry)
-    return Case(_cid("conv", entry, tag, fault or "valid", "shape" + _shape_tag(shape)), h)
+    return Case(_cid("conv", entry, tag, fault or "valid", "shape" + _shape_tag(shape) + _lay_tag(layout)), h)
 
 
 BASE_COPY = {"in_base(mks)": lambda q: q.in_base("mks"), "in_base(cgs)": lambda q: q.in_base("cgs"), "in_base()": lambda q: q.in_base(),
@@ -588,11 +735,11 @@ BASE_INPLACE = {"convert_to_base(mks)": (lambda q: q.convert_to_base("mks"), "in
                 "convert_to_base(xnope)": (lambda q: q.convert_to_base("xnope"), "in_base(xnope)")}
 
 
-def base_case(entry, tag, src, fault, shape):
+def base_case(entry, tag, src, fault, shape, layout="c"):
     def h(ctx):
         E = Env(ctx)
         E.must_return = fault is None and "xnope" not in entry
-        q = E.view("q", src, shape)
+        q = E.view("q", src, shape, layout=layout)
         if shape == ():
             E.track("q", q)
         if entry in BASE_COPY:
@@ -601,14 +748,14 @@ def base_case(entry, tag, src, fault, shape):
             f, tw = BASE_INPLACE[entry]
             E.inplace("q", lambda: f(q), lambda: BASE_COPY[tw](q))
     fl = fault or ("unknown unit system" if "xnope" in entry else "valid")
-    return Case(_cid("base", entry, tag, fl, "shape" + _shape_tag(shape)), h)
+    return Case(_cid("base", entry, tag, fl, "shape" + _shape_tag(shape) + _lay_tag(layout)), h)
 
 
-def equiv_case(entry, tag, src, dst, eq, kw, fault, dom, shape):
+def equiv_case(entry, tag, src, dst, eq, kw, fault, dom, shape, layout="c"):
     def h(ctx):
         E = Env(ctx)
         E.must_return = fault is None
-        q = E.view("q", src, shape, lo=0, hi=0.5) if dom == "beta" else E.view("q", src, shape, pos=True)
+        q = E.view("q", src, shape, layout=layout, lo=0, hi=0.5) if dom == "beta" else E.view("q", src, shape, layout=layout, pos=True)
         E.need(dst)
         if shape == ():
             E.track("q", q)
@@ -623,7 +770,7 @@ def equiv_case(entry, tag, src, dst, eq, kw, fault, dom, shape):
             E.inplace("q", lambda: q.convert_to_units(dst, equivalence=eq, **kws), lambda: q.to(dst, equivalence=eq, **kws))
         else:
             raise KeyError(entry)
-    return Case(_cid("equiv", entry, tag, fault or "valid", "shape" + _shape_tag(shape)), h)
+    return Case(_cid("equiv", entry, tag, fault or "valid", "shape" + _shape_tag(shape) + _lay_tag(layout)), h)
 
 
 # =========================================================================================== operators
@@ -681,7 +828,7 @@ def _divisor_kw(opname, spec):
     return {}
 
 
-def op_case(opname, tag, sa, sb, fault, shape):
+def op_case(opname, tag, sa, sb, fault, shape, layout="c", stmt=False):
     aug = opname in AUGOPS
     fn, twin_name = AUGOPS[opname] if aug else (BINOPS[opname], None)
 
@@ -689,24 +836,35 @@ def op_case(opname, tag, sa, sb, fault, shape):
         E = Env(ctx)
         E.must_return = fault is None
         E.observe_values = not any(d in opname for d in DISCONT)
-        a = E.operand("a", sa, shape)
+        a = E.operand("a", sa, shape, layout=layout)
         same_obj = (tag == "same_object")
-        b = a if same_obj else E.operand("b", sb, shape, **_divisor_kw(opname, sb))
+        b = a if same_obj else E.operand("b", sb, shape, layout=layout, **_divisor_kw(opname, sb))
         if aug:
             if "a" not in E.tracked:
                 E.track("a", a)
             tw = BINOPS[twin_name]
+            if stmt:
+                # the statement form  parent[window] op= b : a fresh view, the augmented assignment on it, then the result is
+                # assigned back into its own window of the parent (__setitem__ with a value that lies on the target's memory)
+                par, w = E.tracked["a^"], _window(E.carved["a"][0], layout)
+
+                def statement():
+                    v = par[w]
+                    v = fn(v, b)
+                    par[w] = v
+                E.inplace("a", statement, lambda: tw(a, b))
+                return
             E.inplace("a", lambda: fn(a, b), lambda: tw(a, b))
         else:
             E.copying(lambda: fn(a, b))
-    return Case(_cid("op", opname, tag, fault or "valid", "shape" + _shape_tag(shape)), h)
+    return Case(_cid("op", opname, tag, fault or "valid", "shape" + _shape_tag(shape) + _lay_tag(layout) + ("+stmt" if stmt else "")), h)
 
 
-def pow_case(form, tag, sa, sb, fault, shape):
+def pow_case(form, tag, sa, sb, fault, shape, layout="c"):
     def h(ctx):
         E = Env(ctx)
         E.must_return = fault is None
-        a = E.operand("a", sa, shape, pos=True)
+        a = E.operand("a", sa, shape, pos=True, layout=layout)
         b = E.operand("b", sb, shape)
         if form == "pow":
             E.copying(lambda: a ** b)
@@ -717,9 +875,12 @@ def pow_case(form, tag, sa, sb, fault, shape):
         elif form == "np.power(out=a)":
             E.inplace("a", lambda: np.power(a, b, out=a), lambda: np.power(a, b))
         elif form == "np.power(out=o)":
-            E.view("o", "xs", shape)
+            E.view("o", "xs", shape, layout=layout)
             E.inplace("o", lambda: np.power(a, b, out=E.tracked["o"]), lambda: np.power(a, b))
-    return Case(_cid("op", form, tag, fault or "valid", "shape" + _shape_tag(shape)), h)
+        elif form == "np.power(out=view of a)":
+            E.alias("o", "a", "view")
+            E.inplace("o", lambda: np.power(a, b, out=E.tracked["o"]), lambda: np.power(a, b))
+    return Case(_cid("op", form, tag, fault or "valid", "shape" + _shape_tag(shape) + _lay_tag(layout)), h)
 
 
 def unop_case(opname, src, shape):
@@ -756,6 +917,12 @@ UFUNCS = [
     ("add@offset_other", 2, 1, "xta", "xtb", {}, "offset temperature"), ("add@K_degC", 2, 1, "K", "degC", {}, "offset temperature"),
     ("multiply@roffset", 2, 1, "num", "xta", {}, "offset temperature"), ("multiply@log", 2, 1, "Np", "xa", {}, "logarithmic unit"),
     ("add@bare", 2, 1, "xa", "bare", {}, "bare operand"), ("multiply@bare", 2, 1, "xa", "bare", {}, None),
+    # refusals that unyt reaches only AFTER the second operand was rescaled (point - absolute), and their returning neighbours
+    ("subtract@degC_K", 2, 1, "degC", "K", {}, "offset temperature"), ("subtract@offset_abs", 2, 1, "xta", "xtk", {}, "offset temperature"),
+    ("subtract@K_degC", 2, 1, "K", "degC", {}, "offset temperature"), ("add@degC_K", 2, 1, "degC", "K", {}, None),
+    ("maximum@degC_delta", 2, 1, "degC", "delta_degC", {}, None), ("subtract@table", 2, 1, "m", "cm", {}, None),
+    # difference + point: here unyt rescales the FIRST operand
+    ("add@delta_degC", 2, 1, "delta_degC", "degC", {}, None), ("add@delta_degF_degC", 2, 1, "delta_degF", "degC", {}, None),
 ]
 OUT_FORMS = ["none", "fresh", "otherunit", "bareout", "wrongshape", "wrongshape_otherunit", "wrongshape_otherdim", "alias0", "alias1"]
 # out= that NumPy itself refuses (wrong shape) while it carries ANOTHER unit than the result: a handler that relabels its target
@@ -783,39 +950,65 @@ def is_wrongshape(outform):
     return outform.startswith("wrongshape")
 
 
-def ufunc_case(name, arity, nout, ua, ub, kw, fault, outform, shape):
+# out= that is a SECOND view object over memory of an input (np.add(x[::2], b, out=x[::2]) is the spelled-out x[::2] += b):
+# (form, operand position, how the second view is made - see Env.alias)
+ALIAS_FORMS = {"view0": (0, "view"), "view1": (1, "view"), "subview0": (0, "subview"), "subview1": (1, "subview"),
+               "flip0": (0, "flip"), "flip1": (1, "flip"), "shift0": (0, "shift"), "shift1": (1, "shift"),
+               "relabel0": (0, "relabel"), "relabel1": (1, "relabel")}
+# out= buffers (in the unit of operand 0) that are not C-contiguous
+LAYOUT_FORMS = {"strided": "strided", "reversed": "rev", "transposed": "T", "colstrided": "colstrided"}
+WHERE_MASK = [True, False]
+
+
+def ufunc_case(name, arity, nout, ua, ub, kw, fault, outform, shape, layout="c"):
+    """layout: memory layout of the operands; outform: 'none' | an OUT_FORMS / ALIAS_FORMS / LAYOUT_FORMS name, '+where' appended:
+    the call also carries where=[True, False]"""
     ufname = name.split("@")[0]
+    outform0, _, wh = outform.partition("+")
 
     def h(ctx):
         E = Env(ctx)
-        E.must_return = fault is None and not is_wrongshape(outform)
+        E.must_return = fault is None and not is_wrongshape(outform0)
         E.observe_values = not any(d in ufname for d in DISCONT)
         uf = getattr(np, ufname)
-        a = E.operand("a", ua, shape, **(kw if arity == 1 else {}))
+        a = E.operand("a", ua, shape, **dict(kw if arity == 1 else {}, **({"layout": layout} if ua != "num" and not str(ua).startswith("q:") else {})))
         args = [a]
         if arity == 2:
-            args.append(E.operand("b", ub, shape, **kw))
-        if ("a" not in E.tracked and outform == "alias0") or (arity == 2 and "b" not in E.tracked and outform == "alias1"):
+            args.append(E.operand("b", ub, shape, **dict(kw, **({"layout": layout} if ub != "num" and not str(ub).startswith("q:") else {}))))
+        kws, mask = {}, None
+        if wh:
+            mask = list(WHERE_MASK)
+            kws["where"] = np.array(mask)
+        if outform0 in ALIAS_FORMS:
+            posn, how = ALIAS_FORMS[outform0]
+            of = "ab"[posn]
+            if posn >= arity or of not in E.parent_of:
+                ctx.require("no such out= form for a scalar operand", True)
+                return
+            E.alias("o", of, how, ustr=_COMMENSURABLE.get((ua, ub)[posn], "xs") if how == "relabel" else None)
+            keys = ["o"]
+        elif ("a" not in E.tracked and outform0 == "alias0") or (arity == 2 and "b" not in E.tracked and outform0 == "alias1"):
             ctx.require("no such out= form for a scalar operand", True)
             return
-        if outform == "none":
+        elif outform0 == "none":
             E.copying(lambda: uf(*args))
             return
-        if outform in ("alias0", "alias1"):
-            keys = ["a" if outform == "alias0" else "b"]
+        elif outform0 in ("alias0", "alias1"):
+            keys = ["a" if outform0 == "alias0" else "b"]
             if nout == 2:
                 E.view("o2", "xs", shape)
                 keys.append("o2")
         else:
-            oshape = (3,) if is_wrongshape(outform) else (shape if shape != () else (1,))
-            ounit = out_unit(outform, ua, ub)
+            olayout = LAYOUT_FORMS.get(outform0, "c")
+            oshape = (3,) if is_wrongshape(outform0) else (shape if shape != () else (1,))
+            ounit = out_unit("fresh" if outform0 in LAYOUT_FORMS else outform0, ua, ub)
             keys = []
             for j in range(nout):
-                E.view(f"o{j}", ounit, oshape)
+                E.view(f"o{j}", ounit, oshape, layout=olayout)
                 keys.append(f"o{j}")
         outs = tuple(E.tracked[k] for k in keys)
-        E.inplace(keys, lambda: uf(*args, out=outs if nout > 1 else outs[0]), lambda: uf(*args))
-    return Case(_cid("ufunc", name, f"out={outform}", fault or "valid", "shape" + _shape_tag(shape)), h)
+        E.inplace(keys, lambda: uf(*args, out=outs if nout > 1 else outs[0], **kws), lambda: uf(*args), where=mask)
+    return Case(_cid("ufunc", name, f"out={outform}", fault or "valid", "shape" + _shape_tag(shape) + ("" if layout == "c" else "@" + layout)), h)
 
 
 METHODS = [  # (tag, callable on (np, a, out) , unit, kw, twin)
@@ -828,19 +1021,25 @@ METHODS = [  # (tag, callable on (np, a, out) , unit, kw, twin)
 ]
 
 
-def method_case(tag, f, tw, unit, kw, outform):
+def method_case(tag, f, tw, unit, kw, outform, layout="c"):
     def h(ctx):
         E = Env(ctx)
-        a = E.view("a", unit, (2, 2), **kw)
+        a = E.view("a", unit, (2, 2), layout=layout, **kw)
         if outform == "none":
             E.copying(lambda: tw(a))
             return
         oshape = (2, 2) if "accumulate" in tag else (2,)
         if is_wrongshape(outform):
             oshape = (3,)
-        E.view("o", out_unit(outform, unit), oshape)
+        if outform in ALIAS_FORMS:
+            if oshape != (2, 2):
+                ctx.require("out= cannot lie on an input of another shape", True)
+                return
+            E.alias("o", "a", ALIAS_FORMS[outform][1], ustr=_COMMENSURABLE.get(unit, "xs"))
+        else:
+            E.view("o", out_unit("fresh" if outform in LAYOUT_FORMS else outform, unit), oshape, layout=LAYOUT_FORMS.get(outform, "c"))
         E.inplace("o", lambda: f(a, E.tracked["o"]), lambda: tw(a))
-    return Case(_cid("ufunc", tag, f"out={outform}", "offset temperature" if "@offset" in tag else "valid", "shape2x2"), h)
+    return Case(_cid("ufunc", tag, f"out={outform}", "offset temperature" if "@offset" in tag else "valid", "shape2x2" + _lay_tag(layout)), h)
 
 
 # =========================================================================================== reductions & array functions
@@ -861,19 +1060,30 @@ REDUCTIONS = [
 ]
 
 
-def reduction_case(tag, f, unit, outform):
+def reduction_case(tag, f, unit, outform, layout="c"):
     def h(ctx):
         E = Env(ctx)
-        a = E.view("a", unit, (2, 2), pos=(tag in ("std", "np.linalg.norm")))
+        a = E.view("a", unit, (2, 2), layout=layout, pos=(tag in ("std", "np.linalg.norm")))
         if outform == "none":
             E.copying(lambda: f(a))
             return
         oshape = (2, 2) if "cum" in tag else (2,)
         if is_wrongshape(outform):
             oshape = (3,)
-        E.view("o", out_unit(outform, unit), oshape)
+        if outform in ALIAS_FORMS:
+            if oshape != (2, 2):
+                ctx.require("out= cannot lie on an input of another shape", True)
+                return
+            E.alias("o", "a", ALIAS_FORMS[outform][1], ustr=_COMMENSURABLE.get(unit, "xs"))
+        elif outform == "row0":
+            # out= is a row of the input itself (a second view object on part of the input's memory)
+            E.track("o", a[0])
+            E.parent_of["o"] = (E.parent_of["a"][0], E.parent_of["a"][1][:2])
+            E.overlap["o"] = {"a"}
+        else:
+            E.view("o", out_unit("fresh" if outform in LAYOUT_FORMS else outform, unit), oshape, layout=LAYOUT_FORMS.get(outform, "c"))
         E.inplace("o", lambda: f(a, out=E.tracked["o"]), lambda: f(a))
-    return Case(_cid("reduce", tag, unit, f"out={outform}", "shape2x2"), h)
+    return Case(_cid("reduce", tag, unit, f"out={outform}", "shape2x2" + _lay_tag(layout)), h)
 
 
 def _mask(n=2):
@@ -998,40 +1208,52 @@ FUNCS_INPLACE = [
 ]
 
 
-def func_case(tag, f, ua, ub, shape, fault):
+def func_case(tag, f, ua, ub, shape, fault, layout="c"):
     def h(ctx):
         E = Env(ctx)
         E.must_return = fault is None
-        a = E.view("a", ua, shape)
-        b = E.view("b", None if ub == "bare" else ub, shape) if ub else None
+        a = E.view("a", ua, shape, layout=layout)
+        b = E.view("b", None if ub == "bare" else ub, shape, layout=layout) if ub else None
         E.copying(lambda: f(a, b))
-    return Case(_cid("func", tag, fault or "valid", "shape" + _shape_tag(shape)), h)
+    return Case(_cid("func", tag, fault or "valid", "shape" + _shape_tag(shape) + _lay_tag(layout)), h)
 
 
-def func_out_case(tag, f, tw, ua, ub, shape, oshape, fault, outform):
+def func_out_case(tag, f, tw, ua, ub, shape, oshape, fault, outform, layout="c"):
     def h(ctx):
         E = Env(ctx)
-        E.must_return = fault is None and outform in ("fresh", "otherunit", "alias0")
-        a = E.view("a", ua, shape)
-        b = E.view("b", ub, shape) if ub else None
+        E.must_return = fault is None and outform in ("fresh", "otherunit", "alias0") and layout == "c"
+        a = E.view("a", ua, shape, layout=layout)
+        b = E.view("b", ub, shape, layout=layout) if ub else None
         if outform == "alias0":
             if oshape != shape:
                 ctx.require("out= cannot alias an input of another shape", True)
                 return
             E.inplace("a", lambda: f(a, b, a), lambda: tw(a, b))
             return
+        if outform in ALIAS_FORMS:
+            posn, how = ALIAS_FORMS[outform]
+            if oshape != shape or (posn == 1 and b is None):
+                ctx.require("out= cannot lie on an input of another shape", True)
+                return
+            E.alias("o", "ab"[posn], how, ustr=_COMMENSURABLE.get((ua, ub)[posn], "xs"))
+            E.inplace("o", lambda: f(a, b, E.tracked["o"]), lambda: tw(a, b))
+            return
         osh = (3,) if is_wrongshape(outform) else oshape
-        E.view("o", "xm" if outform == "otherunit" else out_unit(outform, ua), osh)
+        olay = LAYOUT_FORMS.get(outform, "c")
+        if olay == "T" and len(osh) != 2:
+            ctx.require("a one-dimensional out= has no transposed layout", True)
+            return
+        E.view("o", "xm" if outform == "otherunit" else out_unit("fresh" if outform in LAYOUT_FORMS else outform, ua), osh, layout=olay)
         E.inplace("o", lambda: f(a, b, E.tracked["o"]), lambda: tw(a, b))
-    return Case(_cid("func", tag, f"out={outform}", fault or "valid", "shape" + _shape_tag(shape)), h)
+    return Case(_cid("func", tag, f"out={outform}", fault or "valid", "shape" + _shape_tag(shape) + _lay_tag(layout)), h)
 
 
-def func_inplace_case(tag, f, tw, oracle, ua, ub, shape, fault):
+def func_inplace_case(tag, f, tw, oracle, ua, ub, shape, fault, layout="c"):
     def h(ctx):
         E = Env(ctx)
         E.must_return = fault is None
-        a = E.view("a", ua, shape)
-        b = E.view("b", ub, shape) if ub else None
+        a = E.view("a", ua, shape, layout=layout)
+        b = E.view("b", ub, shape, layout=layout) if ub else None
         if tw is not None:
             E.inplace("a", lambda: f(a, b), lambda: tw(a, b))
         else:
@@ -1039,7 +1261,7 @@ def func_inplace_case(tag, f, tw, oracle, ua, ub, shape, fault):
             au = a.units
             E.inplace("a", lambda: f(a, b), lambda: None,
                       expect=(lambda _: [(oracle(av, bv), au)]) if oracle else (lambda _: [(av, au)]))
-    return Case(_cid("func", tag, "in-place", fault or "valid", "shape" + _shape_tag(shape)), h)
+    return Case(_cid("func", tag, "in-place", fault or "valid", "shape" + _shape_tag(shape) + _lay_tag(layout)), h)
 
 
 # =========================================================================================== item assignment
@@ -1054,13 +1276,13 @@ SETVALS = [
 INDEXES = {"int": 0, "slice": slice(0, 2), "mask": np.array([True, False]), "ellipsis": Ellipsis, "neg": -1}
 
 
-def setitem_case(tag, ua, vspec, fault, iname):
+def setitem_case(tag, ua, vspec, fault, iname, layout="c"):
     idx = INDEXES[iname]
 
     def h(ctx):
         E = Env(ctx)
         E.must_return = fault is None
-        a = E.view("a", ua, (2,))
+        a = E.view("a", ua, (2,), layout=layout)
         if isinstance(vspec, tuple) and vspec[0] == "str":
             v = vspec[1]
         else:
@@ -1099,7 +1321,7 @@ def setitem_case(tag, ua, vspec, fault, iname):
             (sa, oa), (sb, ob) = E.rows["xta"], E.rows["xtb"]
             slack = (abs(oa) + abs(ob * sb / sa) + abs(ob)) * 1e-6
         E.inplace("a", lambda: operator.setitem(a, idx, v), twin, expect=expect, slack=slack)
-    return Case(_cid("setitem", tag, f"index={iname}", fault or "valid"), h)
+    return Case(_cid("setitem", tag, f"index={iname}", (fault or "valid") + _lay_tag(layout)), h)
 
 
 # =========================================================================================== Unit arithmetic
@@ -1164,10 +1386,10 @@ EDITS = {"imul": (lambda c: operator.imul(c, 2.0), lambda c: c * 2.0), "convert"
          "convert_base": (lambda c: c.convert_to_base("cgs"), lambda c: c.in_base("cgs")), "fill": (lambda c: c.fill(1.0), None)}
 
 
-def copy_case(cname, ename, src, shape):
+def copy_case(cname, ename, src, shape, layout="c"):
     def h(ctx):
         E = Env(ctx)
-        q = E.view("q", src, shape)
+        q = E.view("q", src, shape, layout=layout)
         if shape == ():
             E.track("q", q)
         E.need("xb")
@@ -1189,7 +1411,7 @@ def copy_case(cname, ename, src, shape):
             E.inplace("c", lambda: ed(c), lambda: None, expect=lambda _: [(new, cu)])
         else:
             E.inplace("c", lambda: ed(c), lambda: tw(c))
-    return Case(_cid("copy", cname, "then_" + ename, src, "shape" + _shape_tag(shape)), h)
+    return Case(_cid("copy", cname, "then_" + ename, src, "shape" + _shape_tag(shape) + _lay_tag(layout)), h)
 
 
 # =========================================================================================== integer buffers
@@ -1201,10 +1423,10 @@ def _int_env(ctx):
     return E
 
 
-def int_convert_case(dtype, src, dst, entry):
+def int_convert_case(dtype, src, dst, entry, layout="c"):
     def h(ctx):
         E = _int_env(ctx)
-        q = E.concrete("q", [3, 40], src, dtype=dtype)
+        q = E.concrete("q", [3, 40], src, dtype=dtype, layout=layout)
         table = {"convert_to_units": (lambda: q.convert_to_units(dst), lambda: q.in_units(dst)),
                  "convert_to_base": (lambda: q.convert_to_base("cgs"), lambda: q.in_base("cgs")),
                  "convert_to_equivalent": (lambda: q.convert_to_equivalent(dst, "thermal"), lambda: q.to_equivalent(dst, "thermal")),
@@ -1214,26 +1436,26 @@ def int_convert_case(dtype, src, dst, entry):
         E.need(dst)
         f, tw = table[entry]
         E.inplace("q", f, tw)
-    return Case(_cid("int", entry, f"{src}->{dst}", dtype), h)
+    return Case(_cid("int", entry, f"{src}->{dst}", dtype + _lay_tag(layout)), h)
 
 
-def int_out_case(dtype, ufname, ua, ub, uo, fault):
+def int_out_case(dtype, ufname, ua, ub, uo, fault, layout="c"):
     """data are concrete doubles (a float out= buffer cannot hold a term); the unit scales/offsets are symbols"""
     def h(ctx):
         E = _int_env(ctx)
         uf = getattr(np, ufname)
         a, b = E.concrete("a", [1.5, 2.5], ua), E.concrete("b", [50.0, 150.0], ub)
-        E.concrete("o", [3, 40], uo, dtype=dtype)
+        E.concrete("o", [3, 40], uo, dtype=dtype, layout=layout)
         E.inplace("o", lambda: uf(a, b, out=E.tracked["o"]), lambda: uf(a, b))
-    return Case(_cid("int", f"np.{ufname}(out=int)", f"{ua},{ub}->{uo}", fault or "valid", dtype), h)
+    return Case(_cid("int", f"np.{ufname}(out=int)", f"{ua},{ub}->{uo}", fault or "valid", dtype + _lay_tag(layout)), h)
 
 
-def int_aug_case(dtype, opname, ua, ub, fault, symbolic_b):
+def int_aug_case(dtype, opname, ua, ub, fault, symbolic_b, layout="c"):
     fn, twn = AUGOPS[opname]
 
     def h(ctx):
         E = _int_env(ctx)
-        a = E.concrete("a", [3, 40], ua, dtype=dtype)
+        a = E.concrete("a", [3, 40], ua, dtype=dtype, layout=layout)
         if ub == "num":
             b = 2.5
         elif symbolic_b:
@@ -1241,7 +1463,7 @@ def int_aug_case(dtype, opname, ua, ub, fault, symbolic_b):
         else:
             b = E.concrete("b", [50.0, 150.0], ub)
         E.inplace("a", lambda: fn(a, b), lambda: BINOPS[twn](a, b))
-    return Case(_cid("int", opname, f"{ua},{ub}", fault or "valid", dtype), h)
+    return Case(_cid("int", opname, f"{ua},{ub}", fault or "valid", dtype + _lay_tag(layout)), h)
 
 
 def int_copying_case(dtype, tag, f, src):
@@ -1277,11 +1499,17 @@ def float_ufunc_case(name, arity, nout, ua, ub, fault, outform):
             if nout == 2:
                 E.concrete("o1", [0.0, 0.0], "xs")
                 keys.append("o1")
+        elif outform in ALIAS_FORMS:
+            E.alias("o", "a", ALIAS_FORMS[outform][1], ustr=_COMMENSURABLE.get(ua, "xs"))
+            keys = ["o"]
+            if nout == 2:
+                E.concrete("o1", [0.0, 0.0], "xs")
+                keys.append("o1")
         else:
-            ounit = out_unit(outform, ua)
+            ounit = out_unit("fresh" if outform in LAYOUT_FORMS else outform, ua)
             keys = []
             for j in range(nout):
-                E.concrete(f"o{j}", [0.0, 0.0, 0.0] if is_wrongshape(outform) else [0.0, 0.0], ounit)
+                E.concrete(f"o{j}", [0.0, 0.0, 0.0] if is_wrongshape(outform) else [0.0, 0.0], ounit, layout=LAYOUT_FORMS.get(outform, "c"))
                 keys.append(f"o{j}")
         outs = tuple(E.tracked[k] for k in keys)
         E.inplace(keys, lambda: uf(*args, out=outs if nout > 1 else outs[0]), lambda: uf(*args))
@@ -1544,6 +1772,7 @@ HMIX_INPLACE = {
     "I.isub(ro)": lambda H, x, y, t: dict(keys=["w"], fn=lambda: operator.isub(H.w, y), twin=lambda c: c - y),
     "I.add(out=o)": lambda H, x, y, t: dict(keys=["o"], fn=lambda: np.add(x, y, out=H.o), twin=lambda c: np.add(x, y)),
     "I.add(out=x)": lambda H, x, y, t: dict(keys=[t], fn=lambda: np.add(x, y, out=x), twin=lambda c: np.add(c, y)),
+    "I.add(out=x[...])": lambda H, x, y, t: dict(keys=[t], fn=lambda: np.add(x, y, out=x[...]), twin=lambda c: np.add(c, y)),
     "I.add(dim,out=o)": lambda H, x, y, t: dict(keys=["o"], fn=lambda: np.add(x, H.c, out=H.o), twin=lambda c: np.add(x, H.c)),
     "I.add(out=o3)": lambda H, x, y, t: dict(keys=["o3"], fn=lambda: np.add(x, y, out=H.o3), twin=lambda c: np.add(x, y)),
     "I.concatenate(out=o4)": lambda H, x, y, t: dict(keys=["o4"], fn=lambda: np.concatenate([x, y], out=H.o4), twin=lambda c: np.concatenate([x, y])),
@@ -1767,40 +1996,68 @@ def cases(tier, mods):
     out = []
     quick = tier == "quick"
     shapes = [(2,)] if quick else [(2,), ()]
+    # the memory-layout axis: windows that are not C-contiguous. quick: a rotating choice per call site, thorough: all of them
+    lay_all = {1: [((2,), l) for l in LAY1], 2: [((2, 2), l) for l in LAY2]}
+    rot = [0]
+
+    def lays(n_quick, dims=(1, 2), n_thorough=None):
+        allv = [x for d in dims for x in lay_all[d]]
+        n = n_quick if quick else (len(allv) if n_thorough is None else n_thorough)
+        rot[0] += 1
+        return [allv[(rot[0] + i) % len(allv)] for i in range(min(n, len(allv)))]
     # ---- conversions
     for tag, src, dst, fault in CONV_PAIRS:
         for entry in ["to", "in_units", "to_value", "to(Unit)", "convert_to_units"]:
             for sh in shapes:
                 out.append(conv_case(entry, tag, src, dst, fault, sh))
+            for sh, lay in (lays(2) if entry == "convert_to_units" else lays(1 if entry in ("to", "to_value") else 0, n_thorough=2)):
+                out.append(conv_case(entry, tag, src, dst, fault, sh, lay))
     for tag, src, fault in BASE_SRC:
         for entry in list(BASE_COPY) + list(BASE_INPLACE):
             for sh in shapes:
                 out.append(base_case(entry, tag, src, fault, sh))
+            for sh, lay in (lays(1) if entry in BASE_INPLACE else lays(1 if entry in ("in_base(mks)", "in_cgs") else 0, n_thorough=2)):
+                out.append(base_case(entry, tag, src, fault, sh, lay))
     for (tag, src, dst, eq, kw, fault, dom) in EQUIV:
         for entry in ["to_equivalent", "to(equivalence=)", "convert_to_equivalent", "convert_to_units(equivalence=)"]:
             for sh in shapes:
                 out.append(equiv_case(entry, tag, src, dst, eq, kw, fault, dom, sh))
+            for sh, lay in (lays(1) if entry.startswith("convert_") else lays(1 if entry == "to_equivalent" and fault is None else 0, n_thorough=2)):
+                out.append(equiv_case(entry, tag, src, dst, eq, kw, fault, dom, sh, lay))
     # ---- operators
     for tag, sa, sb, fault, ops in OPVARS:
         for op in ops:
             for sh in shapes:
                 out.append(op_case(op, tag, sa, sb, fault, sh))
+            smooth = op in ("add", "sub", "mul", "truediv")  # comparisons / floor / mod fork per element: one-dimensional windows only
+            for sh, lay in lays(1, dims=(1, 2) if smooth else (1,), n_thorough=2):
+                out.append(op_case(op, tag, sa, sb, fault, sh, lay))
             aug = "i" + op
             if aug in AUGOPS and not sa.startswith(("num", "bare", "q:")):
                 for sh in shapes:
                     out.append(op_case(aug, tag, sa, sb, fault, sh))
+                for sh, lay in lays(1, dims=(1, 2) if smooth else (1,)):
+                    out.append(op_case(aug, tag, sa, sb, fault, sh, lay))
+                # the statement form  parent[window] op= b  (only where the result keeps the unit of the array: a window cannot
+                # carry another unit than its parent, `x[1:3] *= y_metres` is refused by __setitem__ after the product was formed)
+                if aug in ("iadd", "isub", "imod") or sb == "num":
+                    for sh, lay in [((2,), "c")] + ([] if quick else [((2,), "strided")] + ([((2, 2), "colstrided")] if smooth else [])):
+                        out.append(op_case(aug, tag, sa, sb, fault, sh, lay, stmt=True))
     for op in ["add", "sub", "mul", "truediv", "eq", "iadd", "isub", "imul", "itruediv"]:
         out.append(op_case(op, "same_object", "xa", "xa", None, (2,)))
         out.append(op_case(op, "same_object", "xta", "xta", "offset temperature", (2,)))
     for tag, sa, sb, fault in POWVARS:
-        for form in ["pow", "np.power", "ipow", "np.power(out=a)", "np.power(out=o)"]:
+        for form in ["pow", "np.power", "ipow", "np.power(out=a)", "np.power(out=o)", "np.power(out=view of a)"]:
             out.append(pow_case(form, tag, sa, sb, fault, (2,)))
+            if form != "pow":
+                for sh, lay in lays(1, dims=(1,)):
+                    out.append(pow_case(form, tag, sa, sb, fault, sh, lay))
     for op in UNOPS:
         for src in ["xa", "xta"]:
             for sh in shapes:
                 out.append(unop_case(op, src, sh))
     # ---- ufuncs
-    for (name, arity, nout, ua, ub, kw, fault) in UFUNCS:
+    for n_uf, (name, arity, nout, ua, ub, kw, fault) in enumerate(UFUNCS):
         for of in OUT_FORMS:
             if of == "alias1" and (arity == 1 or ub in ("num",)):
                 continue
@@ -1811,12 +2068,35 @@ def cases(tier, mods):
             if quick and fault is not None and of in ("bareout", "otherunit", "wrongshape", "wrongshape_otherunit", "wrongshape_otherdim") and name not in ("add@dim", "multiply@offset"):
                 continue
             out.append(ufunc_case(name, arity, nout, ua, ub, kw, fault, of, (2,)))
+        # out= a second view object over an input's memory / not C-contiguous / with where=; operands that are not C-contiguous
+        second = [f for f, (posn, how) in ALIAS_FORMS.items() if posn < arity and (ua, ub)[posn] != "num"]
+        extra = second + ["strided", "reversed", "fresh+where", "alias0+where", "view0+where", "strided+where", "otherunit+where"]
+        # (no partially overlapping out= together with where=: NumPy itself then writes a temporary back over the whole window,
+        # np.equal(x[1:3], y, out=x[2:4], where=[True, False]) changes x[3] on bare ndarrays)
+        if quick:
+            rots = [f for f in second if f[:-1] in ("subview", "flip", "shift", "relabel")]
+            keep = {"view0", "view1", "strided", "view0+where"} | {rots[(n_uf + k) % len(rots)] for k in (0, 1)}
+            keep |= {"fresh+where"} if fault is None else set()
+            extra = [f for f in extra if f in keep]
+        for of in extra:
+            if ua == "num" and of.split("+")[0] in ("alias0",):
+                continue
+            out.append(ufunc_case(name, arity, nout, ua, ub, kw, fault, of, (2,)))
+        for lay, forms in (("strided", ["none", "fresh", "alias0", "view0"]), ("rev", ["none", "alias0", "shift0"])):
+            for of in (forms[n_uf % len(forms):][:1] if quick else forms):
+                if ua == "num" and of != "none" and of != "fresh":
+                    continue
+                out.append(ufunc_case(name, arity, nout, ua, ub, kw, fault, of, (2,), layout=lay))
         if not quick and arity == 2:
             out.append(ufunc_case(name, arity, nout, ua, ub, kw, fault, "none", ()))
             out.append(ufunc_case(name, arity, nout, ua, ub, kw, fault, "fresh", ()))
     for (tag, f, tw, unit, kw) in METHODS:
         for of in ["none", "fresh", "otherunit", "wrongshape", "wrongshape_otherunit", "wrongshape_otherdim", "bareout"]:
             out.append(method_case(tag, f, tw, unit, kw, of))
+        for of in (["transposed", "colstrided", "view0", "flip0", "shift0", "relabel0"] if "accumulate" in tag else ["strided", "reversed"]):
+            out.append(method_case(tag, f, tw, unit, kw, of))
+        for sh, lay in lays(1, dims=(2,)):
+            out.append(method_case(tag, f, tw, unit, kw, "fresh", lay))
     # ---- reductions
     for (tag, f, has_out) in REDUCTIONS:
         for unit in ["xa", "xta"]:
@@ -1825,23 +2105,48 @@ def cases(tier, mods):
                 forms = forms[:2] + [x for x in forms if x == "wrongshape_otherunit"]
             for of in forms:
                 out.append(reduction_case(tag, f, unit, of))
+            # out= not C-contiguous / a second view on memory of the input; the input itself not C-contiguous
+            if has_out:
+                more = ["transposed", "colstrided", "view0", "flip0", "shift0", "relabel0"] if "cum" in tag else ["strided", "reversed", "row0"]
+                if quick and unit == "xta":
+                    more = more[:1]
+                for of in more:
+                    out.append(reduction_case(tag, f, unit, of))
+            for sh, lay in lays(1, dims=(2,)):
+                out.append(reduction_case(tag, f, unit, "fresh" if has_out and not (quick and unit == "xta") else "none", lay))
     # ---- array functions
     for (tag, f, ua, ub, sh, fault) in FUNCS:
         out.append(func_case(tag, f, ua, ub, sh, fault))
-    for (tag, f, tw, ua, ub, sh, osh, fault) in FUNCS_OUT:
+        for _, lay in lays(1, dims=(len(sh),)):
+            out.append(func_case(tag, f, ua, ub, sh, fault, lay))
+    for n_f, (tag, f, tw, ua, ub, sh, osh, fault) in enumerate(FUNCS_OUT):
         for of in ["fresh", "otherunit", "wrongshape", "wrongshape_otherunit", "wrongshape_otherdim", "bareout", "alias0"]:
             out.append(func_out_case(tag, f, tw, ua, ub, sh, osh, fault, of))
+        # out= not C-contiguous (every one of the layouts, in both tiers), out= a second view on memory of an input, and
+        # operands that are not C-contiguous
+        for of in (["strided", "reversed"] if len(osh) == 1 else ["transposed", "colstrided", "strided", "reversed"]):
+            out.append(func_out_case(tag, f, tw, ua, ub, sh, osh, fault, of))
+        if osh == sh:
+            second = ["view0", "subview0", "flip0", "shift0", "relabel0"] + (["view1", "shift1", "relabel1"] if ub else [])
+            for of in ([second[0], second[1 + n_f % (len(second) - 1)]] if quick else second):
+                out.append(func_out_case(tag, f, tw, ua, ub, sh, osh, fault, of))
+        for _, lay in lays(1, dims=(len(sh),)):
+            out.append(func_out_case(tag, f, tw, ua, ub, sh, osh, fault, "fresh", lay))
         for dt in (["int32"] if quick else ["int32", "int64", "int8", "uint16"]):
             out.append(func_out_typed_case(tag, f, tw, ua, ub, sh, osh, fault, dt, False))
             out.append(func_out_typed_case(tag, f, tw, ua, ub, sh, osh, fault, dt, True))
     for (tag, f, tw, oracle, ua, ub, sh, fault) in FUNCS_INPLACE:
         out.append(func_inplace_case(tag, f, tw, oracle, ua, ub, sh, fault))
+        for _, lay in lays(2, dims=(len(sh),)):
+            out.append(func_inplace_case(tag, f, tw, oracle, ua, ub, sh, fault, lay))
     # ---- item assignment
     for (tag, ua, vspec, fault) in SETVALS:
         for iname in INDEXES:
             if quick and iname in ("neg", "ellipsis") and fault is None:
                 continue
             out.append(setitem_case(tag, ua, vspec, fault, iname))
+            for _, lay in lays(1, dims=(1,)):
+                out.append(setitem_case(tag, ua, vspec, fault, iname, lay))
     for vname in TYPED_SETVALS:
         for iname in ["int", "slice", "mask"]:
             out.append(typed_setitem_case(vname, iname))
@@ -1858,6 +2163,8 @@ def cases(tier, mods):
                 continue
             out.append(copy_case(cname, ename, "xa", (2,)))
         out.append(copy_case(cname, "convert", "xta", (2,)))
+        for sh, lay in lays(1, n_thorough=3):
+            out.append(copy_case(cname, "imul", "xa", sh, lay))
         if not quick:
             out.append(copy_case(cname, "imul", "xa", ()))
     # ---- integer buffers (concrete typed data; symbolic unit scales wherever the call fails before arithmetic)
@@ -1885,14 +2192,25 @@ def cases(tier, mods):
         out.append(int_copying_case(dt, "to_equivalent", lambda q: q.to_equivalent("keV", "thermal"), "K"))
         out.append(int_copying_case(dt, "add", lambda q: q + q, "xa"))
         out.append(int_copying_case(dt, "copy", lambda q: q.copy(), "xa"))
+        # integer buffers that are not C-contiguous
+        for lay in (["strided"] if quick else LAY1):
+            if quick and dt != "int32":
+                continue
+            out.append(int_convert_case(dt, "xa" if one_byte else "m", "xb" if one_byte else "cm", "convert_to_units", lay))
+            out.append(int_convert_case(dt, "xa", "xs", "convert_to_units(dim)", lay))
+            out.append(int_convert_case(dt, "xa" if one_byte else "m", "-", "convert_to_base", lay))
+            out.append(int_out_case(dt, "add", "xa", "xs", "xa", "dimension mismatch", lay))
+            out.append(int_out_case(dt, "add", "m", "cm", "m", None, lay))
+            out.append(int_aug_case(dt, "iadd", "m", "cm", None, False, lay))
+            out.append(int_aug_case(dt, "iadd", "xa", "xs", "dimension mismatch", True, lay))
     for unit in ["xa", "xta", "xd"]:
         for pw in [2, 0.5, -1, 1, 3, 0]:
             for form in ["pow", "ipow", "np.power(out=o)"]:
                 out.append(float_pow_case(form, unit, pw))
     # ---- ufuncs NumPy has no object loop for (multi-output modf/divmod, copysign, isfinite): concrete doubles, symbolic unit scales
     for (name, arity, nout, ua, ub, fault) in FLOAT_UFUNCS:
-        for of in ["none", "fresh", "otherunit", "bareout", "wrongshape", "wrongshape_otherunit", "alias0"]:
-            if quick and (name == "frexp@dim" or (name == "frexp" and of not in ("none", "fresh")) or of == "otherunit"):
+        for of in ["none", "fresh", "otherunit", "bareout", "wrongshape", "wrongshape_otherunit", "alias0", "view0", "flip0", "shift0", "relabel0", "strided", "reversed"]:
+            if quick and (name == "frexp@dim" or (name == "frexp" and of not in ("none", "fresh")) or of in ("otherunit", "flip0", "relabel0", "reversed")):
                 continue
             out.append(float_ufunc_case(name, arity, nout, ua, ub, fault, of))
     # ---- histories of two and three calls in one path; read-only targets
